@@ -560,6 +560,7 @@ def _code_to_function():
     out = {}
 
     def add(f_):
+        outer = f_
         try:
             f_ = inspect.unwrap(f_)
             sig = inspect.signature(f_)
@@ -568,6 +569,14 @@ def _code_to_function():
         opts = [(n, p.default) for n, p in sig.parameters.items() if p.default is not inspect.Parameter.empty]
         if hasattr(f_, "__code__"):
             out[f_.__code__] = (getattr(f_, "__qualname__", f_.__name__), opts)
+        # a functools.wraps'ed function (e.g. the jax namesake of a tensortrax model) runs its OWN code object with its
+        # own parameters: register it as well (option coverage only)
+        if outer is not f_ and hasattr(outer, "__code__") and outer.__code__ not in out:
+            try:
+                sig_o = inspect.signature(outer, follow_wrapped=False)
+                out[outer.__code__] = (getattr(outer, "__qualname__", outer.__name__), [(n, p.default) for n, p in sig_o.parameters.items() if p.default is not inspect.Parameter.empty])
+            except Exception:
+                pass
 
     for mname, mod in list(_sys.modules.items()):
         if not mname.startswith("felupe") or mod is None:
